@@ -23,13 +23,18 @@ fn eval(a: &Ast, truth: &BTreeSet<String>) -> bool {
 fn show(a: &Ast, style: usize, top: bool) -> String {
     let sp = if style & 1 == 1 { "  " } else { " " };
     let s = match a {
-        Ast::Star => "*".to_string(),
+        // a bare '*' is only recognised as the last token of a (sub)expression: elsewhere it is written "(*)"
+        Ast::Star => if top { "*".to_string() } else { "(*)".to_string() },
         Ast::Var(v) => if style & 2 == 2 { format!("({v})") } else { v.clone() },
         Ast::And(x, y) => {
-            let f = |z: &Ast| match z { Ast::Or(..) => format!("({})", show(z, style, false)), _ => show(z, style, false) };
+            // style bit 16: every compound operand keeps its own parentheses ("A && (A && B)" is not flattened)
+            let f = |z: &Ast| match z { Ast::Or(..) => format!("({})", show(z, style, false)), Ast::And(..) if style & 16 == 16 => format!("({})", show(z, style, false)), _ => show(z, style, false) };
             if style & 4 == 4 { format!("{}{sp}&&{sp}{}", f(x), f(y)) } else { format!("{}&&{}", f(x), f(y)) }
         }
-        Ast::Or(x, y) => format!("{}{sp}||{sp}{}", show(x, style, false), show(y, style, false)),
+        Ast::Or(x, y) => {
+            let g = |z: &Ast| match z { Ast::Or(..) | Ast::And(..) if style & 16 == 16 => format!("({})", show(z, style, false)), _ => show(z, style, false) };
+            format!("{}{sp}||{sp}{}", g(x), g(y))
+        }
     };
     if top && style & 8 == 8 { format!(" ( {s} ) ") } else { s }
 }
@@ -45,8 +50,8 @@ fn eval_dnf(d: &[Vec<QualifiedAttribute>], truth: &BTreeSet<String>) -> bool {
     d.iter().any(|c| c.iter().all(|t| truth.contains(&format!("{}::{}", t.dimension, t.name))))
 }
 fn asts(depth: usize, vars: &[&str]) -> Vec<Ast> {
-    // '*' is only documented as a whole policy, not as an operand: it is checked separately
-    let leaves: Vec<Ast> = vars.iter().map(|v| Ast::Var(v.to_string())).collect();
+    let mut leaves: Vec<Ast> = vars.iter().map(|v| Ast::Var(v.to_string())).collect();
+    leaves.push(Ast::Star);
     if depth == 0 {
         return leaves;
     }
@@ -107,12 +112,12 @@ fn parse__faithful_to_reference_semantics() {
     let mut n = 0u64;
     for (i, a) in all.iter().enumerate() {
         // every formula in 2 styles (rotating), a subset in all 16
-        let styles: Vec<usize> = if i % 7 == 0 { (0..16).collect() } else { vec![i % 16, (i * 5 + 3) % 16] };
+        let styles: Vec<usize> = if i % 7 == 0 { (0..32).collect() } else { vec![i % 16, (i * 5 + 3) % 16, 16 + (i * 3 + 1) % 16] };
         for st in styles {
             let text = show(a, st, true);
             let p = match std::panic::catch_unwind(|| AccessPolicy::parse(&text)) {
                 Err(_) => panic!("C15: parsing {text:?} panics"),
-                Ok(Err(e)) => panic!("C15: the well-formed policy {text:?} is rejected: {e}"),
+                Ok(Err(e)) => { vchk!(false, "C15: the well-formed policy {text:?} is rejected: {e}"); continue }
                 Ok(Ok(p)) => p,
             };
             let dnf = p.to_dnf();
@@ -130,6 +135,25 @@ fn parse__faithful_to_reference_semantics() {
                 for t in c {
                     vchk!(vars.iter().any(|v| { let (d, nme) = v.split_once("::").unwrap(); d == t.dimension && nme == t.name }), "C15: {text:?}: attribute {t:?} is not one of the names of the input");
                 }
+            }
+        }
+    }
+    // a bare trailing '*': "X && *" is X, "X || *" is everything
+    for a in asts(1, &vars) {
+        for (text, want_ast) in [
+            (format!("({}) && *", show(&a, 0, false)), Ast::And(Box::new(a.clone()), Box::new(Ast::Star))),
+            (format!("{} || *", show(&a, 0, false)), Ast::Or(Box::new(a.clone()), Box::new(Ast::Star))),
+            (format!("(*) && ({})", show(&a, 4, false)), Ast::And(Box::new(Ast::Star), Box::new(a.clone()))),
+        ] {
+            let p = match std::panic::catch_unwind(|| AccessPolicy::parse(&text)) {
+                Ok(Ok(p)) => p,
+                _ => { vchk!(false, "C15: the well-formed policy {text:?} is rejected or panics"); continue }
+            };
+            for mask in 0..8u32 {
+                let truth: BTreeSet<String> = vars.iter().enumerate().filter(|(k, _)| mask >> k & 1 == 1).map(|(_, v)| { let (d, nme) = v.split_once("::").unwrap(); format!("{}::{}", d.trim(), nme.trim()) }).collect();
+                let want = eval(&want_ast, &truth);
+                vchk!(eval_policy(&p, &truth) == want && eval_dnf(&p.to_dnf(), &truth) == want, "C15: {text:?} parsed as {p:?} (DNF {:?}) does not evaluate to {want} under {truth:?} ('*' is true for everyone)", p.to_dnf());
+                n += 1;
             }
         }
     }
